@@ -81,11 +81,10 @@ Proof.
 Qed.
 
 (** ** no unrefined false tie *)
-Lemma nuft_sound k q w' : nuft_q k q = true -> 0 <= k -> 2 ^ 63 <= w' < 2 ^ 64 ->
-  0 <= (w' * Thi q) mod 2 ^ (64 + k) <= 1 -> False.
+Lemma nuft_core_sound a k j x w' : nuft_core a k j x = true -> 0 <= k -> 2 ^ 63 <= w' < 2 ^ 64 ->
+  0 <= (w' * a) mod 2 ^ (64 + k) <= 1 -> False.
 Proof.
-  unfold nuft_q. cbv zeta. set (a := Thi q). set (m := 2 ^ (64 + k)).
-  set (j := val2 64 a). set (x := newton_inv 8 (a / 2 ^ j) m 1).
+  unfold nuft_core. cbv zeta. set (m := 2 ^ (64 + k)).
   intros C Hk Hw Hr.
   apply andb_prop in C. destruct C as [C Cneg].
   apply andb_prop in C. destruct C as [C Cax].
@@ -96,7 +95,7 @@ Proof.
   pose proof (pow2_pos k Hk) as Hpk. pose proof (pow2_pos j ltac:(lia)) as Hpj.
   assert (Hjk : 2 ^ j <= 2 ^ k) by (apply pow2_le; lia).
   assert (Hm0 : 0 < m) by lia.
-  clearbody x j a m.
+  clearbody m.
   set (r := (w' * a) mod m) in *.
   assert (Key : w' * 2 ^ j = (r * x) mod m).
   { transitivity ((w' * 2 ^ j) mod m).
@@ -112,8 +111,168 @@ Proof.
     lia.
 Qed.
 
+Lemma nuft_sound k q w' : nuft_q k q = true -> 0 <= k -> 2 ^ 63 <= w' < 2 ^ 64 ->
+  0 <= (w' * Thi q) mod 2 ^ (64 + k) <= 1 -> False.
+Proof. unfold nuft_q. cbv zeta. apply nuft_core_sound. Qed.
+
 Lemma nuft_q_ok f q : lfmt f -> -27 <= q < 0 -> nuft_q (61 - MANTISSA_SIZE f) q = true.
 Proof.
   intros L Hq. pose proof (lf_nuft f L) as H. unfold nuft_ok in H.
   exact (proj1 (forallb_forall _ _) H q (in_zrange (-27) 27 q ltac:(lia))).
 Qed.
+
+Lemma pw_m27 : pw (-27) = -27. Proof. reflexivity. Qed.
+Lemma p2_65 : 2 ^ 65 = 2 * 2 ^ 64. Proof. reflexivity. Qed.
+
+(** below the round-to-even window an odd significand cannot be exact *)
+Lemma no_tie_below f q w lz sh M : lfmt f -> 0 < w < 2 ^ 64 -> 0 <= lz -> 0 <= sh ->
+  -27 <= q < MIN_EXPONENT_ROUND_TO_EVEN f -> 2 ^ (MANTISSA_SIZE f + 1) <= M -> M mod 2 = 1 ->
+  w * 2 ^ lz * qX q <> M * (2 ^ (128 + sh) * qY q).
+Proof.
+  intros L Hw Hlz Hsh Hq HM Hodd E.
+  pose proof (lf_minrte f L) as Hmin. pose proof (lf_minrte5 f L) as Hmin5. pose proof (lf_ms f L) as HMS.
+  pose proof (qs_bound q ltac:(lia)) as Hs.
+  rewrite qX_neg, qY_neg in E by lia.
+  set (n := - q) in *. set (s := qs q) in *.
+  set (a := lz + s). set (c := 128 + sh + n).
+  assert (E' : w * 2 ^ a = M * 5 ^ n * 2 ^ c).
+  { unfold a, c. rewrite !pow2_add by lia. rewrite pow2_add in E by lia. lia. }
+  assert (H5 : 5 ^ (1 - MIN_EXPONENT_ROUND_TO_EVEN f) <= 5 ^ n) by (apply Z.pow_le_mono_r; unfold n; lia).
+  assert (H5p : 0 < 5 ^ n) by (apply Z.pow_pos_nonneg; unfold n; lia).
+  destruct (Z_le_gt_dec a c) as [Hac|Hac].
+  - rewrite (pow2_split a c) in E' by (unfold a; lia).
+    pose proof (pow2_pos a ltac:(unfold a; lia)) as Hpa.
+    pose proof (pow2_pos (c - a) ltac:(lia)) as Hpc.
+    assert (Ew : w = M * 5 ^ n * 2 ^ (c - a)).
+    { apply (Z.mul_reg_r _ _ (2 ^ a)); [lia|]. rewrite E'. ring. }
+    assert (2 ^ (MANTISSA_SIZE f + 1) * 5 ^ (1 - MIN_EXPONENT_ROUND_TO_EVEN f) <= M * 5 ^ n).
+    { apply Z.mul_le_mono_nonneg; try lia; apply Z.pow_nonneg; lia. }
+    assert (M * 5 ^ n <= w).
+    { rewrite Ew. assert (0 < M * 5 ^ n) by (apply Z.mul_pos_pos; lia). nia. }
+    lia.
+  - rewrite (pow2_split c a) in E' by (unfold c, n; lia).
+    pose proof (pow2_pos c ltac:(unfold c, n; lia)) as Hpc.
+    assert (Ew : w * 2 ^ (a - c) = M * 5 ^ n).
+    { apply (Z.mul_reg_r _ _ (2 ^ c)); [lia|]. rewrite <- E'. ring. }
+    assert (Ev : 2 ^ (a - c) = 2 * 2 ^ (a - c - 1)).
+    { rewrite <- pow2_S by lia. f_equal; lia. }
+    pose proof (odd_mul M (5 ^ n) Hodd (pow5_odd n ltac:(unfold n; lia))) as Ho.
+    rewrite <- Ew, Ev in Ho.
+    replace (w * (2 * 2 ^ (a - c - 1))) with ((w * 2 ^ (a - c - 1)) * 2) in Ho by ring.
+    rewrite Z.mod_mul in Ho by lia. discriminate.
+Qed.
+
+Lemma facts_ceil f q w lo hi : lfmt f -> 0 < w < 2 ^ 64 -> -27 <= q < 0 ->
+  0 <= lo < 2 ^ 64 -> 2 ^ 62 <= hi < 2 ^ 64 ->
+  refined_pair (w * 2 ^ lz64 w) q lo hi \/
+  unrefined_pair (w * 2 ^ lz64 w) q (61 - MANTISSA_SIZE f) lo hi ->
+  facts_ok f q w lo hi.
+Proof.
+  intros L Hw Hq Hlo Hhi Hpair.
+  pose proof (lz64_spec w Hw) as (Hlz & Hw').
+  set (lz := lz64 w) in *. set (w' := w * 2 ^ lz) in *.
+  pose proof (lfmt_emax f L) as (He1 & He2 & He3 & He4 & He5).
+  pose proof (lf_ms f L) as HMS.
+  pose proof (prod_floor f q w' lo hi L ltac:(lia) Hw' Hlo Hhi Hpair) as PF. cbv zeta in PF.
+  pose proof (M_range f hi L Hhi) as MR. cbv zeta in MR.
+  pose proof (tentry_range q ltac:(lia)) as (HT1 & HT2 & HT).
+  unfold facts_ok. cbv zeta. fold lz. fold w'.
+  set (u := hi / 2 ^ 63) in *. set (sh := u + 61 - MANTISSA_SIZE f) in *.
+  set (M := hi / 2 ^ sh) in *. set (G := 2 ^ (128 + sh)) in *.
+  set (P := w' * T128 q) in *.
+  destruct MR as (Hu & Hub & HM). destruct PF as [PF _].
+  pose proof (qY_pos q) as HY.
+  assert (Hsh : 0 <= sh) by (unfold sh; lia).
+  assert (HG : 0 < G) by (unfold G; apply pow2_pos; lia).
+  pose proof (qcheck_ceil q Hq) as [HX HTlo].
+  assert (ED : forall m, m * (G * qY q) = (m * G) * qY q) by (intros; ring).
+  pose proof (pow2_pos sh Hsh) as Hpsh.
+  assert (EG : G = 2 ^ sh * (2 ^ 64 * 2 ^ 64)).
+  { unfold G. rewrite Z.add_comm, pow2_add by lia. rewrite p2_128. reflexivity. }
+  pose proof (Z.div_mod hi (2 ^ sh) ltac:(lia)) as Ehi. fold M in Ehi.
+  pose proof (Z.mod_pos_bound hi (2 ^ sh) ltac:(lia)) as Bhi.
+  set (A := w' * qX q).
+  assert (HA1 : (P - w') * qY q < A) by (unfold A, P; clear - HX Hw'; nia).
+  assert (HA2 : A < P * qY q) by (unfold A, P; clear - HX Hw'; nia).
+  assert (NZ : - 2 ^ 65 * qY q < A - M * (G * qY q) < 2 ^ 65 * qY q -> A = M * (G * qY q)).
+  { exact (near_zero q w' sh M Hq Hsh). }
+  rewrite p2_65 in NZ.
+  (* no borrow *)
+  assert (Flow : M * (G * qY q) <= A).
+  { destruct (Z_le_gt_dec (M * (G * qY q)) A) as [|Hgt]; [assumption|].
+    assert (A = M * (G * qY q)); [|lia].
+    apply NZ. rewrite ED in *.
+    assert ((M * G - 2 ^ 64) * qY q < A) by (clear - HA1 PF Hw' HY; nia).
+    clear - H Hgt HY. nia. }
+  assert (Hpow2 : 0 < pw q + u - lz - MINIMUM_EXPONENT f).
+  { pose proof (pw_mono (-27) q ltac:(lia)). rewrite pw_m27 in H. pose proof (lf_minexp_lt f L). lia. }
+  (* the refined pair brackets P *)
+  assert (HRP : refined_pair w' q lo hi -> (hi * 2 ^ 64 + lo) * 2 ^ 64 <= P < (hi * 2 ^ 64 + lo + 1) * 2 ^ 64).
+  { unfold refined_pair. fold P. intros HR.
+    pose proof (Z.div_mod P (2 ^ 64) ltac:(lia)) as E.
+    pose proof (Z.mod_pos_bound P (2 ^ 64) ltac:(lia)) as B. rewrite <- HR in E. lia. }
+  split; [|split].
+  - (* floor *)
+    split; [exact Flow|]. rewrite ED. clear - HA2 PF HY. nia.
+  - intros _. split.
+    + (* a detected tie is a tie *)
+      intros Et. unfold cf_tie in Et. cbv zeta in Et. fold u in Et. fold sh in Et. fold M in Et.
+      apply andb_prop in Et; destruct Et as [Et Ez]. apply andb_prop in Et; destruct Et as [Et Em4].
+      apply andb_prop in Et; destruct Et as [Et Emax]. apply andb_prop in Et; destruct Et as [Elo Emin].
+      assert (Ehi' : hi = 2 ^ sh * M) by lia.
+      destruct Hpair as [HR|[HU1 HU2]].
+      * apply NZ. specialize (HRP HR).
+        assert (P < M * G + 2 * 2 ^ 64).
+        { rewrite EG. rewrite Ehi' in HRP. clear - HRP Elo Hlo. nia. }
+        rewrite ED in *. clear - H HA2 Flow HY. nia.
+      * exfalso. apply (nuft_sound (61 - MANTISSA_SIZE f) q w' (nuft_q_ok f q L Hq) ltac:(lia) Hw').
+        rewrite <- HU1.
+        replace ((hi * 2 ^ 64 + lo) mod 2 ^ (64 + (61 - MANTISSA_SIZE f))) with lo; [lia|].
+        apply (Z.mod_unique_pos _ _ (M * 2 ^ u)).
+        -- assert (2 ^ 64 <= 2 ^ (64 + (61 - MANTISSA_SIZE f))) by (apply pow2_le; lia). lia.
+        -- assert (Esh : 2 ^ sh = 2 ^ u * 2 ^ (61 - MANTISSA_SIZE f)).
+           { rewrite <- pow2_add by lia. f_equal; unfold sh; lia. }
+           rewrite Ehi' at 1. rewrite Esh, pow2_add by lia. ring.
+    + (* a tie is detected *)
+      intros EAD Hm4.
+      assert (Hmin : MIN_EXPONENT_ROUND_TO_EVEN f <= q).
+      { destruct (Z_le_gt_dec (MIN_EXPONENT_ROUND_TO_EVEN f) q) as [|Hgt]; [assumption|exfalso].
+        apply (no_tie_below f q w lz sh M L Hw ltac:(lia) Hsh ltac:(lia) ltac:(lia)); [|exact EAD].
+        clear - Hm4. Z.div_mod_to_equations. lia. }
+      fold A in EAD. fold G in EAD.
+      assert (HP1 : P < M * G + w').
+      { rewrite EAD, ED in HA1. clear - HA1 HY. nia. }
+      assert (HP2 : M * G < P).
+      { rewrite EAD, ED in HA2. clear - HA2 HY. nia. }
+      assert (Hz : lo = 0 /\ hi mod 2 ^ sh = 0).
+      { destruct Hpair as [HR|[HU1 HU2]].
+        - specialize (HRP HR).
+          assert ((hi * 2 ^ 64 + lo) * 2 ^ 64 < (M * 2 ^ sh * 2 ^ 64 + 1) * 2 ^ 64).
+          { rewrite EG in HP1. clear - HRP HP1 Hw'. nia. }
+          assert (hi * 2 ^ 64 + lo <= M * 2 ^ sh * 2 ^ 64) by (clear - H; nia).
+          rewrite Ehi in H0 at 1. clear - H0 Bhi Hlo. nia.
+        - exfalso.
+          assert (P = (hi * 2 ^ 64 + lo) * 2 ^ 64 + w' * Tlo q).
+          { rewrite HU1. unfold P, T128. ring. }
+          assert (M * G <= hi * 2 ^ 64 * 2 ^ 64).
+          { rewrite EG. rewrite Ehi at 1. clear - Bhi Hpsh. nia. }
+          assert (w' <= w' * Tlo q) by (clear - HTlo Hw'; nia).
+          clear - H H0 H1 HP1 Hlo. nia. }
+      unfold cf_tie. cbv zeta. fold u. fold sh. fold M.
+      pose proof (lf_maxrte f L). lia.
+  - intros Hp. lia.
+Qed.
+
+(** ** Stage 2 *)
+Theorem compute_float_sound_ceil f b q w : lfmt_ok f = true ->
+  0 < w < 2 ^ 64 -> -27 <= q < 0 -> SMALLEST_POWER_OF_TEN f <= q -> cf_sound f b q w.
+Proof.
+  intros Lok Hw Hq Hsq. pose proof (lfmt_ok_spec f Lok) as L.
+  apply cf_driver; [assumption|lia|pose proof (lf_lp10 f L); lia|].
+  intros lo hi Hlo Hhi Hpair _. apply facts_ceil; assumption.
+Qed.
+
+Print Assumptions compute_float_sound_ceil.
+
+Example ex_ceil_hyps : lfmt_ok F32 = true /\ 0 < 16777217 < 2 ^ 64 /\ -27 <= -17 < 0 /\ SMALLEST_POWER_OF_TEN F32 <= -17.
+Proof. split; [exact lfmt_ok_F32|]. rewrite p2_64. cbn. lia. Qed.
